@@ -4,6 +4,14 @@ manifest stays valid while checks are added)."""
 import json
 
 claimed = {
+ "C06": dict(level="exploration", engine="I",
+   text="complete enumeration of the small value domains (all ports, all error codes 300..699, all text lengths up to the limit, every 16-bit type, list lengths 0..64) and per-byte-complete enumeration of address/transaction-ID bytes, each checked against independent RFC 5389 s15 encoders and decoders in both directions",
+   note="address space is covered one byte position at a time (complete because XOR and copy are bytewise), not as a 2^128 product; trusts /verif/ref/attrs.go",
+   technique="bounded exhaustive enumeration of value domains, differential against reference encoder/decoder", ref="DESIGN.md section 2 C06"),
+ "C07": dict(level="exploration", engine="I",
+   text="every getter/checker on every value length 0..40 x content class x position x capacity slack x surroundings, on messages decoded from exact allocations, release and debug; twin rule decides locality (same value => same outcome whatever surrounds it), snapshot comparison decides side-effect freedom, recovered panics decide totality",
+   note="value content is one pattern per class; for integrity/fingerprint the covered prefix is fixed and only uncovered bytes vary",
+   technique="bounded exhaustive enumeration of input shapes and buffer configurations with a metamorphic (twin) oracle", ref="DESIGN.md section 2 C07"),
  "C16": dict(level="exploration", engine="I",
    text="every string over the property's 20-symbol alphabet up to length 5 (quick) / 6 (thorough) after each of 7 prefixes, plus a long family, is parsed in isolated child processes with a capped stack and a hang watchdog; a crashing batch is bisected to one string. Exhaustive below the length bound, which is where the recursion defect lives (shortest witness has 3 symbols)",
    note="stack cap 16 MB stands for 'unbounded'; 8 s per string stands for 'time bounded by input length'; random / grammar-mutated tails not attempted",
